@@ -126,7 +126,10 @@ def strategy(draw):
                 v = gen.collide([lo, hi][which], how)
                 lo, hi = (v, hi) if which == 0 else (lo, v)
         steps.append(dict(range=[lo, hi], how=draw(st.sampled_from(["tuple", "tuple", "list", "same-list", "same-list"])),
-                          kw=draw(st.sampled_from(["none", "empty", "empty"]))))
+                          kw=draw(st.sampled_from(["none", "empty", "empty"])),
+                          # the first member of the azimuthal result is given the new range on its own, before the
+                          # result as a whole (seeded change C08-R6B: an early return keyed on member 0's state)
+                          member_first=draw(gen.chance(3))))
     # stored order of the grid: ascending, or descending (centre frequencies may be requested in descending order and
     # curves tabulated by period arrive that way)
     return dict(f=f, curves=curves, steps=steps, descending=draw(gen.chance(5)))
@@ -306,6 +309,9 @@ def check_case(case):
             arg = shared
             labels.append("same-list-reused")
         kw = None if s.get("kw", "none") == "none" else {}     # {} is the documented equivalent of None
+        if s.get("member_first"):
+            sut(azi.hvsrs[0].update_peaks_bounded, (lo, hi), kw, what="HvsrAzimuthal.hvsrs[0].update_peaks_bounded")
+            labels.append("member-updated-before-the-azimuthal-result")
         for obj in singles + [trad, azi, dfield]:
             sut(obj.update_peaks_bounded, arg, kw, what=f"{type(obj).__name__}.update_peaks_bounded")
         verify((lo, hi), step)
